@@ -102,6 +102,9 @@ func (w *Writer) WriteStreamWithOptions(bom *sbom.Document, wr io.WriteCloser, o
 	if err != nil {
 		return fmt.Errorf("getting serializer: %w", err)
 	}
+	if serializer == nil {
+		return fmt.Errorf("getting serializer: nil serializer registered for format %s", format)
+	}
 
 	so := o.SerializeOptions
 	if so == nil {
